@@ -445,7 +445,7 @@ def getunit(v, unit='rad'):
                 v = v.astype(np.float64)  # convert in double precision whatever the element type
             return v * math.pi / 180
         else:
-            return [x * math.pi / 180 for x in v]
+            return [(np.float64(x) if isinstance(x, np.floating) else x) * math.pi / 180 for x in v]
     else:
         raise ValueError("invalid angular units")
 
